@@ -194,6 +194,11 @@ var unitStringsSec = []any{"5m30s", "1m 4s", "90s", "1H", "2 minutes", "1d1s", "
 	"1H5m5.5s", "1d2H3m4.25s", "2H30m0.5"}
 var unitStringsBytes = []any{"1kB", "1kB24B", "2 MB", "1024B", "1.5kB", "5 bytes", "1B1kB", "1GB1MB1kB1B"}
 
+// units without multipliers (a definition whose multiplier table is nil when built by the constructor and an empty map
+// when rebuilt from its description): plain, signed, exponent, bare-dot and padded spellings
+var unitStringsChars = []any{"5 chars", "5chars", "1 char", "3 characters", "0chars", "-5 chars", "+5", "+5 chars", ".5 chars", "5.", "5. chars", "2.5e1 chars", "1e1", " 5 ", "5 char s", "5 kchars"}
+var unitStringsPct = []any{"5%", "50 percent", "5 %", "0.5%", "-5 %", "+5%", ".5 percent", "5.%", "2.5e1 %", "1e1", " 5 ", "5 %%"}
+
 // wrapUnitStrings: well-formed quantities whose count x multiplier (or running sum) leaves the 64-bit range by a whole
 // turn or more - the product is small and non-negative again modulo 2^64, so a sign test does not notice.
 func wrapUnitStrings(units string) []any {
@@ -518,6 +523,8 @@ func RawValues(s *Spec) []any {
 			out = append(out, unitStringsSec...)
 		case "bytes":
 			out = append(out, unitStringsBytes...)
+		case "chars":
+			out = append(out, unitStringsChars...)
 		}
 		if s.Units != "" {
 			out = append(out, wrapUnitStrings(s.Units)...)
@@ -547,6 +554,9 @@ func RawValues(s *Spec) []any {
 		out = append(out, extremeNumbers()...)
 		if s.Units == "sec" {
 			out = append(out, unitStringsSec...)
+		}
+		if s.Units == "pct" {
+			out = append(out, unitStringsPct...)
 		}
 		if s.Units != "" {
 			out = append(out, wrapUnitStrings(s.Units)...)
